@@ -75,6 +75,11 @@ def run(ctx):
     for _ in range(ctx.n(600)):
         n = rng.randrange(1, 6)
         names = [f"n{i}" for i in range(n)]
+        if rng.random() < 0.4:
+            # names that are dotted extensions / prefixes of one another, single characters, reserved words
+            pool = ["a", "a.x", "a.x.y", "a.", ".a", "enc", "enc.norm", "enc.norm.1", "in", "i", "n", "input", "input.0",
+                    "nodes", "edges", "type", "é", "é.é", "x y", "x"]
+            names = rng.sample(pool, n)
         consistent = rng.random() < 0.5
         if consistent:
             s = rng.choice(SHAPES[1:])
@@ -86,4 +91,51 @@ def run(ctx):
             types = {x: (rng.choice(SHAPES), rng.choice(SHAPES)) for x in names}
         edges = [(rng.choice(names), rng.choice(names)) for _ in range(rng.randrange(0, 7))]
         one(names, types, edges, "sampled")
+    # repeated checks of one graph object whose node types change in between: every verdict is about the graph as
+    # it is at the time of the call
+    import nir
+    from core import impl_construct, quiet
+    for _ in range(ctx.n(120)):
+        n = rng.randrange(2, 5)
+        names = [f"n{i}" for i in range(n)]
+        s0 = rng.choice(SHAPES[1:])
+        types = {x: (s0, s0) for x in names}
+        edges = [(names[i], names[i + 1]) for i in range(n - 1)] + [(rng.choice(names), rng.choice(names)) for _ in range(rng.randrange(0, 3))]
+        g = {"type": "NIRGraph", "nodes": [[x, node(rng, *types[x])] for x in names], "edges": [list(e) for e in edges], "meta": None}
+        graph = impl_construct(g)
+        history = []
+        case = {"op": "recheck", "graph": g, "history": history}
+        ctx.case(case); ctx.count("recheck")
+        bad = None
+        for step in range(rng.randrange(2, 5)):
+            x = rng.choice(names)
+            how = rng.choice(["break_in", "break_out", "undefine", "replace_node", "restore", "none"])
+            node_obj = graph.nodes[x]
+            if how == "break_in":
+                s1 = rng.choice([s for s in SHAPES[1:] if s != types[x][0]])
+                node_obj.input_type = {"input": np.array(s1)}; types[x] = (s1, types[x][1])
+            elif how == "break_out":
+                s1 = rng.choice([s for s in SHAPES[1:] if s != types[x][1]])
+                node_obj.output_type = {"output": np.array(s1)}; types[x] = (types[x][0], s1)
+            elif how == "undefine":
+                node_obj.input_type = {"input": None}; types[x] = (None, types[x][1])
+            elif how == "replace_node":
+                s1 = rng.choice(SHAPES[1:])
+                graph.nodes[x] = nir.Threshold(np.ones(s1) if s1 else np.array(1.0)); types[x] = (s1, s1)
+            elif how == "restore":
+                node_obj.input_type = {"input": np.array(s0)}; node_obj.output_type = {"output": np.array(s0)}; types[x] = (s0, s0)
+            history.append([how, x])
+            want = expected(names, types, edges)
+            try:
+                with quiet():
+                    got = graph._check_types() is True
+                err = None
+            except Exception as e:  # noqa
+                got, err = False, type(e).__name__
+            if want != got or (not want and err != "ValueError"):
+                bad = {"step": step, "want_accept": want, "accepted": got, "error": err}
+                break
+        if bad:
+            ctx.violate(case, "a repeated type check of one graph object does not judge the graph as it now is",
+                        {"site": "_check_types", "what": "recheck", "accepted": bad["accepted"]}, observed=bad)
     ctx.compare("graphs", cases, obs, reqs)
